@@ -1839,13 +1839,34 @@ func ruleEveryStatementSubmitted(c *Ctx, rule string) {
 				return true
 			}
 			stack = append(stack, x)
+			// only an exit that depends on how a statement went drops statements unduly: an exit inside the test of
+			// ExecQuery's error (or an unconditional one). A quit command recognised before the statement is run ends
+			// the session by design.
+			onErrorPath := func() bool {
+				guarded := false
+				for _, a := range stack[:len(stack)-1] {
+					if ifs, ok := a.(*ast.IfStmt); ok {
+						guarded = true
+						k := exprKey(ifs.Cond)
+						if ifs.Init != nil && len(f.Calls(ifs.Init, false, "engine.Session.ExecQuery")) > 0 {
+							return true
+						}
+						if strings.Contains(k, "err!=nil") || strings.Contains(k, "err==nil") {
+							return true
+						}
+					}
+				}
+				return !guarded
+			}
 			switch y := x.(type) {
 			case *ast.FuncLit:
 				return false
 			case *ast.ReturnStmt:
-				bad = "a return"
+				if onErrorPath() {
+					bad = "a return"
+				}
 			case *ast.BranchStmt:
-				if y.Tok == token.BREAK || y.Tok == token.GOTO {
+				if (y.Tok == token.BREAK || y.Tok == token.GOTO) && onErrorPath() {
 					inner := false
 					for _, a := range stack[:len(stack)-1] {
 						switch a.(type) {
